@@ -18,7 +18,7 @@ CPU_BUDGET = 150
 REQUIRED_OBS = ["trees_round_tripped", "entries_compared", "modes_compared", "mtimes_compared"]
 RULE = ("generated trees (depth <= 5; empty and non-empty directories; files of size 0..; relative symlinks to files and directories, sideways and "
         "upward-but-inside; Unicode names; file modes 0o400..0o777, directory modes 0o500..0o777; mtimes 1970..2100 with 100 ns fractions) x entry point "
-        "{writeall+extractall, pack_7zarchive+unpack_7zarchive} x arcname None/given x source absolute/relative/'../src' from a sibling directory/'.' from inside the tree/absolute with the working directory inside "
+        "{writeall+extractall, pack_7zarchive+unpack_7zarchive} x arcname None/given x source absolute/relative/'../src' from a sibling directory/'src/../../work/src'/'.' from inside the tree/absolute with the working directory inside "
         "the tree x extraction into a given directory / into the current directory x link targets also spelled './t', 't/', 'a//t' x dereference off/on x default filters / "
         "password; the tree written into a fresh archive, after a member given as data, or appended to an existing archive. Half of the cases run as uid 65534 (root ignores permission bits). Oracle: lstat/readlink/read walk of the extracted tree vs the source: "
         "path set, kinds, bytes, link text, S_IMODE of files and directories, mtime within 5 microseconds. Cell = (entry point, arcname, source form, "
@@ -37,7 +37,7 @@ def cases(rng, tier):
         if deref and (T.has_dir_link_cycle(tree) or not T.deref_image_is_finite(tree)):
             deref = False  # an upward or mutually recursive directory link has no finite dereferenced image
         out.append({"tree": tree, "entry": "shutil" if rng.random() < 0.15 and not deref else rng.choice(["writeall", "writeall", "writeall", "append", "after-writestr"]), "arcname": rng.choice([None, None, "arc", "deep/arc name"]),
-                    "source": rng.choice(["abs", "rel", "rel", "dot", "cwd-inside", "dotdot"]), "extract": rng.choice(["dst", "dst", "cwd"]), "deref": deref, "password": rng.choice([None, None, None, "pässwörd"]),
+                    "source": rng.choice(["abs", "rel", "rel", "dot", "cwd-inside", "dotdot", "inner-dotdot"]), "extract": rng.choice(["dst", "dst", "cwd"]), "deref": deref, "password": rng.choice([None, None, None, "pässwörd"]),
                     "uid": 65534 if i % 2 else 0, "chain": (G.chain(rng, aes=False) if rng.random() < 0.3 else None)})
         if not deref:
             _add_link_through_link(rng, tree)
@@ -159,6 +159,9 @@ def _body(case, d):
     try:
         os.chdir(src_parent)
         srcarg = src if case["source"] in ("abs", "cwd-inside") else "src"
+        if case["source"] == "inner-dotdot" and case["entry"] != "shutil":
+            # the tree named through itself and back: the same directory for the kernel, '..' in the middle of the spelling
+            srcarg = "src/../../work/src"
         if case["source"] == "dotdot" and case["entry"] != "shutil":
             # the tree lies beside the working directory
             os.mkdir(os.path.join(src_parent, "elsewhere"))
@@ -212,6 +215,8 @@ def _body(case, d):
                 top = os.path.join(dst, case["arcname"])
             elif case["source"] in ("abs", "cwd-inside"):
                 top = os.path.join(dst, src.lstrip("/"))
+            elif case["source"] == "inner-dotdot":
+                top = os.path.join(dst, "work", "src")
             elif case["source"] == "dot":
                 top = dst
             else:
